@@ -105,11 +105,20 @@ func (n *node) invalidate() {
 }
 
 func (n *node) release() {
-	n.invalidate()
+	n.doRelease(false)
+}
 
+// releaseIfUnused releases n unless it has gained a dependent since the caller
+// saw its out list become empty: that observation and the release do not
+// happen under one lock, and a node that is depended on again has to stay.
+func (n *node) releaseIfUnused() {
+	n.doRelease(true)
+}
+
+func (n *node) doRelease(onlyIfUnused bool) {
 	// check if we should release
 	n.mu.Lock()
-	if n.released {
+	if n.released || (onlyIfUnused && len(n.out) > 0) {
 		n.mu.Unlock()
 		return
 	}
@@ -118,6 +127,9 @@ func (n *node) release() {
 	verifReleased(n)
 	n.mu.Unlock()
 	verifYield("release.unlocked")
+
+	// releasing implies an invalidation
+	n.invalidate()
 
 	if n.afterRelease != nil {
 		n.afterRelease()
@@ -134,7 +146,7 @@ func (n *node) release() {
 
 		if shouldRelease {
 			verifYield("release.decided")
-			from.release()
+			from.releaseIfUnused()
 		}
 	}
 	// set in to nil to help garbage collection
@@ -174,7 +186,7 @@ func (n *node) addOut(to *node) {
 		go to.invalidate()
 	}
 	if shouldRelease {
-		go n.release()
+		go n.releaseIfUnused()
 	}
 }
 
